@@ -200,7 +200,7 @@ PROPS = {
                 "while a reader is open at most D pages per transaction; after it closes hwm(c+k) <= hwm(c+2)+D. "
                 "non-trivial = run of >= 40 transactions in which pages below the previous high-water mark were re-allocated.",
         "run": generic(sanitizers=('asan',), thorough_profiles=()),
-        "floors": {"any": {"transactions": 1000, "pages_allocated_below_previous_hwm(reuse)": 1000, "runs_with_periodic_reopen": 5, "runs_with_a_multi_page_free_list": 4, "short_readers_opened_and_closed_on_8_threads_before_a_run": 1000, "runs_with_reader_held": 2, "runs_with_reader_hand_over": 2}},
+        "floors": {"any": {"transactions": 1000, "pages_allocated_below_previous_hwm(reuse)": 1000, "runs_with_periodic_reopen": 5, "writer_begins_whose_free_set_was_compared_with_the_unreachable_pages": 2000, "runs_with_a_multi_page_free_list": 4, "short_readers_opened_and_closed_on_8_threads_before_a_run": 1000, "runs_with_reader_held": 2, "runs_with_reader_hand_over": 2}},
         "assumptions": ["bounds are sufficient conditions for a plateau, not the tightest possible"],
     },
     "C06": {
@@ -262,9 +262,9 @@ PROPS = {
         "rule": "faults = for each target transaction (small, multi-page value, nested+sibling bucket deletes, many pages, growing by one / two extension "
                 "steps) on a prepared file with a non-empty free list: the commit's libc write / fsync calls are counted first, then EVERY call index is "
                 "failed in a fresh run: write -> EIO, ENOSPC, genuine short write (half written) then EIO, and 'every call from here on fails'; "
-                "fsync -> EIO; extension -> RLIMIT_FSIZE at 6 limits around the needed size; plus sampled pairs (one fault in this commit, one in the next); every "
+                "fsync -> EIO; a short write NOT followed by an error; extension -> RLIMIT_FSIZE at 6 limits around the needed size, and the mmap after the extension -> ENOMEM; plus sampled pairs (one fault in this commit, one in the next); every "
                 "single fault on the non-growing targets a second time with an older reader held open across the failing commit and the follow-ups. "
-                "Oracle per run: commit must not panic; Ok only if the new state is visible; same handle shows exactly pre or post state; the header on "
+                "Oracle per run: commit must not panic; Ok only if no call of the commit was failed and the new state is visible; same handle shows exactly pre or post state; the header on "
                 "file parses as a sound tree; the next writer's free set is disjoint from the live pages; DB::check; three follow-up transactions "
                 "commit and read back; after reopen the model state is read back and DB::check passes. exhaustive=true: every single call index of every "
                 "target was failed. non-trivial = run in which the armed fault actually fired.",
